@@ -292,9 +292,9 @@ func (c *c18ctx) predicateIdentities(xs, p string, envIdx []int) {
 			mark("one-count", c.judgeEqual("one-count", "one("+xs+", {"+p+"})", "count("+xs+", {"+p+"}) == 1", m, ei, true))
 			mark("count-filter", c.judgeEqual("count-filter", "count("+xs+", {"+p+"})", "len(filter("+xs+", {"+p+"}))", m, ei, true))
 			mark("filter-spec", c.filterSpec(xs, p, m, ei))
-			// (count visits every element, any / none stop at the first hit: values compared, not call logs)
 			// count = len(filter) wherever the count is USED: compared with 0 / 1 / 2 from either side (two forms per instance,
-			// chosen by the instance; the quantifier readings any / none / one of such comparisons included)
+			// chosen by the instance).  Not judged against any / none / one: those stop at the first hit, count visits every element,
+			// so a predicate failing on a later element separates them legitimately
 			cnt, flt := "count("+xs+", {"+p+"})", "len(filter("+xs+", {"+p+"}))"
 			h := 0
 			for _, ch := range xs + p {
@@ -306,9 +306,6 @@ func (c *c18ctx) predicateIdentities(xs, p string, envIdx []int) {
 				mark("count-filter", c.judgeEqual("count-filter", fmt.Sprintf("%d %s %s", k, op, cnt), fmt.Sprintf("%d %s %s", k, op, flt), m, ei, true))
 				mark("count-filter", c.judgeEqual("count-filter", fmt.Sprintf("%s %s %d", cnt, ops[(h+j*5+3)%6], k), fmt.Sprintf("%s %s %d", flt, ops[(h+j*5+3)%6], k), m, ei, true))
 			}
-			mark("none-any", c.judgeEqual("none-any", "0 >= "+cnt, "none("+xs+", {"+p+"})", m, ei, false))
-			mark("none-any", c.judgeEqual("none-any", "0 < "+cnt, "any("+xs+", {"+p+"})", m, ei, false))
-			mark("one-count", c.judgeEqual("one-count", "1 == "+cnt, "one("+xs+", {"+p+"})", m, ei, false))
 		}
 	}
 }
